@@ -49,6 +49,22 @@ static void setF(const int *d, vcase *c)
     c->n = c->m = 4; c->pat = (uint64_t)d[0] * 13 + 0x8421; c->pat &= 0xffff; c->pat |= 0x8421; /* keep the diagonal: structurally nonsingular */
     c->vals = VALS_B[d[1]]; c->colperm = 4; c->permid = d[2]; c->u = U_LIST[d[3]]; set_tune(c, TUNE_B[d[4]]); c->type = d[5]; c->nrhs = 1; c->rhs = 1;
 }
+/* fam G: orders 10..16 (generated patterns: structured base + one deviation, or pseudo-random), wide panels: reaches U-segments of length >= 4 inside a
+ * panel (xcolumn_bmod / xpanel_bmod 2-D kernels), relaxed supernodes of the post-ordered etree (heap_relax_snode in symmetric mode) and supernodes wider than 3 */
+static const int GN[] = { 10, 12, 16 };
+#define G_NDEV 25
+#define G_NRND 120
+static const int TUNE_G[] = { 0, 8, 11, 12, 5 };
+static void setG(const int *d, vcase *c)
+{
+    int per = 9 * G_NDEV + G_NRND, k = d[0] / per, q = d[0] % per;
+    c->n = c->m = GN[k];
+    if (q < 9 * G_NDEV) { int b = q / G_NDEV, dv = q % G_NDEV; c->gen = 1; long cell = dv ? ((long)(dv - 1) * 37 + b * 5) % ((long)c->n * c->n) + 1 : 0; c->pat = (uint64_t)b | ((uint64_t)cell << 8); }
+    else { c->gen = 2; c->pat = (uint64_t)(q - 9 * G_NDEV) + 1000u * k; }
+    c->vals = (int[]){ 1, 2, 3 }[d[1]]; c->colperm = d[2]; c->u = U_LIST[d[3]]; c->sym = d[4]; set_tune(c, TUNE_G[d[5]]); c->type = d[6]; c->stor = d[0] & 1;
+    c->nrhs = 1 + (d[0] % 3 == 0); c->rhs = d[0] % 5; c->permid = -2;    /* MY_PERMC: reverse order */
+}
+#define N_G(nn) ((nn) * (9 * G_NDEV + G_NRND))
 static const int TM[] = { 2, 3, 3, 4, 4, 5, 5 }, TN[] = { 1, 1, 2, 2, 3, 2, 3 };
 static long tall_off[8]; static long tall_total(void) { long s = 0; for (int k = 0; k < 7; k++) { tall_off[k] = s; s += 1L << (TM[k] * TN[k]); } tall_off[7] = s; return s; }
 static void setT(const int *d, vcase *c)
@@ -63,6 +79,7 @@ static const family FAM_QUICK[] = {
     { "DEV_1(BASE(6)) x V0-6 x colperm5 x u3 x sym2 x stor2 x tune9 x type4", 9, { 9, 37, 7, 5, 3, 2, 2, 9, 4 }, setC },
     { "MY_PERMC all 4! orders x 5041 patterns(diag kept) x {V1,V3} x u{1,.1} x tune2 x type4", 6, { 5041, 2, 24, 2, 2, 4 }, setF },
     { "tall m x n (2x1,3x1,3x2,4x2,4x3,5x2,5x3, all patterns) through xgstrf x {V1,V3} x {NATURAL,COLAMD} x u{1,.1} x tune3 x type4 [C02/C03 only]", 6, { N_TALL, 2, 2, 2, 3, 4 }, setT },
+    { "n in {10,12} x (BASE+24 deviations, 120 generated patterns) x {V1,V2,V3} x colperm5 x u{1,.1} x sym2 x tune{default,8,11,12,5} x type4", 7, { N_G(2), 3, 5, 2, 2, 5, 4 }, setG },
 };
 static const family FAM_THOROUGH[] = {
     { "ALL(1..3) x V0-6 x colperm5 x u3 x sym2 x stor2 x tune3 x type4 x rhs2", 9, { N_ALL123, 7, 5, 3, 2, 2, 3, 4, 2 }, setA },
@@ -72,6 +89,7 @@ static const family FAM_THOROUGH[] = {
     { "DEV_1(BASE(8)) x V0-7 x colperm5 x u4 x sym2 x stor2 x tune9 x type4", 9, { 9, 65, 8, 5, 4, 2, 2, 9, 4 }, setD },
     { "ALL(4) x V0-7 x colperm5 x u4 x tune9 x stor2 x {d,z} x sym2", 8, { N_ALL4, 8, 5, 4, 9, 2, 2, 2 }, setE },
     { "tall m x n (all patterns of 7 shapes) through xgstrf x {V1,V3,V7} x {NATURAL,COLAMD,MMD_ATA} x u3 x tune3 x type4 [C02/C03 only]", 6, { N_TALL, 3, 3, 3, 3, 4 }, setT },
+    { "n in {10,12,16} x (BASE+24 deviations, 120 generated patterns) x {V1,V2,V3} x colperm5 x u4 x sym2 x tune{default,8,11,12,5} x type4", 7, { N_G(3), 3, 5, 4, 2, 5, 4 }, setG },
 };
 /* other build variants: reduced products (vendor BLAS = the configuration the 24 tests run; 64-bit indices; sanitizers) */
 static void setAs(const int *d, vcase *c)   /* sanitizer builds: ALL(1..3) x {V1,V3} x colperm5 x u{1,.1} x sym2 x stor2 x tune{2,3,5} x type4 */
